@@ -349,9 +349,9 @@ func init() {
 		Assumptions: []string{"for Set on a tag that occurs more than once only the clauses of the statement are demanded (which duplicates are rewritten is left open)"},
 		Bound: func(tier string) string {
 			if tier == "thorough" {
-				return "all histories of depth <= 6 (4 starts x 18^6 = 136M histories, each in two modes: fresh texts / texts passed as shared slices); equality complete (6241 pairs); far states: containers of 7..130 distinct tags reached in two ways x every continuation of depth <= 2 over 18 operations; equality of 7..130-entry lists against 8 variants"
+				return "all histories of depth <= 6 (4 starts x 18^6 = 136M histories, each in two modes: fresh texts / texts passed as shared slices); equality complete (6241 pairs); far states: containers of 7..130 distinct tags reached in two ways x every continuation of depth <= 2 over 18 operations; equality of 7..130-entry lists against 8 variants; families added after round 5: DESIGN.md 8.11"
 			}
-			return "all histories of depth <= 4 (4 starts x 18^4 = 420k histories, each in two modes: fresh texts / texts passed as shared slices); equality complete (6241 pairs); far states: containers of 7..130 distinct tags reached in two ways x every continuation of depth <= 2 over 18 operations; equality of 7..130-entry lists against 8 variants"
+			return "all histories of depth <= 4 (4 starts x 18^4 = 420k histories, each in two modes: fresh texts / texts passed as shared slices); equality complete (6241 pairs); far states: containers of 7..130 distinct tags reached in two ways x every continuation of depth <= 2 over 18 operations; equality of 7..130-entry lists against 8 variants; families added after round 5: DESIGN.md 8.11"
 		},
 		Run: c19Run,
 	})
